@@ -510,6 +510,13 @@ def _c15_part(rep, tier):
     return c15tier.run_c15(rep, tier)
 
 
+def _c15_rename(rep, tier):
+    # unit tier: the real rewritePkgRefs against WireV.renameOccs, and the binding oracle of the harness
+    dis, fails = unit.correspond(rep, "C15", [("rename", "rename", ["-seed", seed(), "-n", 60 if tier == "quick" else 1500])],
+                                 nontrivial=planner.rename_changed, group_oracle=planner.group_oracle_c15)
+    return dis, fails
+
+
 def _c15_matrix(rep, tier):
     from . import c15tier
     return c15tier.run_matrix(rep, tier)
@@ -527,7 +534,7 @@ register("C15",
          "shadowing, recursion, locals already carrying a numeric suffix) x 8 names (import names only the generated file uses, "
          "import names of both files, the source's own aliases, a package-level function) = 200 functions copied, compiled and run "
          "with and without the tag; non-trivial = the corpus run / each matrix function",
-         [_c15_part, _c15_matrix])
+         [_c15_part, _c15_matrix, _c15_rename])
 
 
 def _c19_part(rep, tier):
